@@ -60,7 +60,7 @@ func (c20) Components() map[string][]string {
 func (c20) ProbeNames() []string {
 	return []string{"opened", "refused", "mke2fs-refused", "reference-unclean", "bs-1024", "bs-2048", "bs-4096", "isz-128", "isz-256",
 		"style-ext4", "style-ext3", "style-ext2", "style-ext4-noextent", "f-64bit", "f-flex_bg", "f-metadata_csum", "f-uninit_bg", "f-dir_index", "f-huge_file", "f-sparse_super2", "f-has_journal",
-		"exotic", "htree-dir", "htree-depth2", "extent-depth1", "extent-depth2", "hole", "slow-symlink", "fast-symlink", "xattr-ibody", "xattr-block", "hardlink", "fifo", "debugfs-ops", "punched", "unwritten-extent", "time-extra", "uid-over-16bit", "error-on-unsupported"}
+		"exotic", "htree-dir", "htree-depth2", "extent-depth1", "extent-depth2", "hole", "slow-symlink", "fast-symlink", "xattr-ibody", "xattr-block", "hardlink", "fifo", "debugfs-ops", "punched", "unwritten-extent", "beyond-4GiB", "time-extra", "uid-over-16bit", "error-on-unsupported"}
 }
 func (c20) Budget(tier string) (int, int, int) {
 	if tier == "thorough" {
@@ -252,6 +252,26 @@ func (c20) Gen(r *core.Rng, tier string, idx int) *core.Trace {
 			}
 		}
 	}
+	// a volume of more than 4 GiB whose first 4 GiB are taken by one preallocated file: everything debugfs creates
+	// afterwards (directories, a slow symlink, files) lies beyond 4 GiB from the start of the file system
+	if nbig != 9000 && r.Chance(map[string]int{"quick": 4, "thorough": 8}[tier]) {
+		t.Cfg["far"] = 1
+		t.Cfg["bs"] = 4096
+		t.Cfg["csum"] = 1
+		t.CfgS["style"] = "ext4"
+		style = "ext4"
+		delete(t.CfgS, "exotic")
+		o := core.Op{K: "file", P: "farpad.bin", D: 100}
+		meta(&o)
+		add(o)
+		add(core.Op{K: "dbg-falloc", P: "farpad.bin", A: 1, D: 1 << 20, C: 1})
+		add(core.Op{K: "dbg-mkdir", P: "fardir"})
+		add(core.Op{K: "dbg-write", P: "fardir/fa.bin", D: core.PickOf[int64](r, 1, 5000, 70000)})
+		add(core.Op{K: "dbg-symlink", P: "fardir/fl", S: strings.Repeat("s", int(core.PickOf[int64](r, 60, 300, 4000)))})
+		add(core.Op{K: "dbg-mkdir", P: "fardir/sub"})
+		add(core.Op{K: "dbg-write", P: "fardir/sub/fb.bin", D: 100})
+		add(core.Op{K: "dbg-write", P: "farfile.bin", D: core.PickOf[int64](r, 4096, 70000, 300000)})
+	}
 	sz := 2*total + 12<<20
 	if t.Cfg["f_has_journal"] == 1 || style == "ext3" {
 		sz += 8 << 20
@@ -356,6 +376,11 @@ func (p c20) Exec(t *core.Trace) *core.Result {
 	}
 	if size > 1<<30 {
 		size = 1 << 30
+	}
+	far := t.I("far") == 1 && style == "ext4" && exotic == ""
+	if far {
+		bs = 4096
+		size = 4<<30 + 400<<20 + int64(uint64(t.I("tag"))%1024)<<20
 	}
 	start := t.I("start")
 	if start < 0 || start > 8<<30 {
@@ -768,8 +793,14 @@ func (p c20) Exec(t *core.Trace) *core.Result {
 				if n == nil || n.kind != 'f' || extentless || o.A < 0 || o.D < 0 || nlinks(nodes, n) > 1 {
 					continue
 				}
+				if o.C == 1 && !far {
+					continue
+				}
 				script = append(script, fmt.Sprintf("fallocate /%s %d %d", o.P, o.A, o.A+o.D))
-				if ns := (o.A + o.D + 1) * bs; ns > n.size {
+				if o.C == 1 {
+					// (the size stays: blocks preallocated beyond the end of the file)
+					res.Probe("beyond-4GiB")
+				} else if ns := (o.A + o.D + 1) * bs; ns > n.size {
 					n.size = ns
 					script = append(script, fmt.Sprintf("sif /%s size %d", o.P, ns))
 				}
